@@ -26,33 +26,33 @@ PROPS = {
     "C04": {
         "title": "Everything runs exactly once and a completed run is quiescent",
         "lean": ["TopsimProps.SysSafety", "TopsimProps.C04", "TopsimProps.C19", "TopsimProofs.Bridge.Queries", "TopsimProps.L3", "TopsimProps.C04Witness", "TopsimProps.C04Table", "TopsimProps.C04Oracle"],
-        "streams": [("default", 32, 500), ("adversary", 24, 400), ("chaotic", 16, 300), ("edge", 20, 300), ("hotwait", 12, 200), ("batch", 12, 200)],
+        "streams": [("default", 32, 500), ("adversary", 24, 400), ("chaotic", 16, 300), ("edge", 22, 300), ("hotwait", 12, 200), ("batch", 12, 200), ("fracunits", 12, 150)],
         "monitor": ["C04"],
     },
     "C05": {
         "title": "Every feasible configuration terminates",
-        "lean": ["TopsimProps.C05", "TopsimProofs.Bridge.Admission", "TopsimProofs.Bridge.BufferArith", "TopsimProofs.Bridge.Sched", "TopsimProps.C05Live", "TopsimProps.C05LiveBatch", "TopsimProps.C05LivePlan", "TopsimProps.C05Bound", "TopsimProps.C05BoundDelay", "TopsimProps.C05BoundBatch", "TopsimProps.C05BoundPlan", "TopsimProps.C08Promised"],
-        "streams": [("feasible", 40, 800), ("tiering", 16, 200), ("samestep", 12, 150), ("edge", 32, 600), ("hotwait", 12, 200)],
+        "lean": ["TopsimProps.C05", "TopsimProofs.Bridge.Admission", "TopsimProofs.Bridge.BufferArith", "TopsimProofs.Bridge.Sched", "TopsimProps.C05Live", "TopsimProps.C05LiveBatch", "TopsimProps.C05LivePlan", "TopsimProps.C05Bound", "TopsimProps.C05BoundDelay", "TopsimProps.C05BoundBatch", "TopsimProps.C05BoundPlan", "TopsimProps.C05BoundDelayAll", "TopsimProps.C08Promised"],
+        "streams": [("feasible", 40, 800), ("tiering", 16, 200), ("samestep", 12, 150), ("edge", 32, 600), ("hotwait", 12, 200), ("fracunits", 12, 150)],
         "monitor": ["C05"],
     },
     "C06": {
         "title": "Task runtime equals work over machine speed, at least one step",
         "lean": ["TopsimProps.C06", "TopsimProofs.Bridge.Runtime", "TopsimProps.C06Traj"],
-        "streams": [("default", 20, 300), ("units", 10, 150), ("big", 4, 60)],
+        "streams": [("default", 20, 300), ("units", 10, 150), ("big", 4, 60), ("fracunits", 12, 150)],
         "direct": ["c06"],
         "monitor": ["C06"],
     },
     "C07": {
         "title": "Buffer space is conserved and never over- or under-flows",
-        "lean": ["TopsimProps.C07", "TopsimProofs.Bridge.BufferArith", "TopsimProofs.Bridge.TierArith", "TopsimProofs.Bridge.Sched", "TopsimProofs.Bridge.Admission", "TopsimProps.C07Traj"],
+        "lean": ["TopsimProps.C07", "TopsimProofs.Bridge.BufferArith", "TopsimProofs.Bridge.TierArith", "TopsimProofs.Bridge.Sched", "TopsimProofs.Bridge.Admission", "TopsimProps.C07Traj", "TopsimProps.C07Freed"],
         "streams": [("default", 32, 500), ("sequential", 16, 200), ("overcommit", 8, 60), ("edge", 40, 400), ("hotwait", 8, 100), ("tiering", 8, 100), ("tierback", 8, 100)],
         "direct": ["c18"],
         "monitor": ["C07"],
     },
     "C08": {
         "title": "Observations start only when all resources are free, and on time when idle",
-        "lean": ["TopsimProps.C08", "TopsimProps.C08Traj", "TopsimProofs.Bridge.Admission", "TopsimProofs.Bridge.Sched", "TopsimProps.C08Sim", "TopsimProps.C08Promised"],
-        "streams": [("default", 40, 600), ("contended", 16, 300), ("idlestart", 12, 150), ("edge", 32, 600), ("hotwait", 12, 200)],
+        "lean": ["TopsimProps.C08", "TopsimProps.C08Traj", "TopsimProofs.Bridge.Admission", "TopsimProofs.Bridge.Sched", "TopsimProps.C08Sim", "TopsimProps.C08Promised", "TopsimProps.C08Transit"],
+        "streams": [("default", 40, 600), ("contended", 16, 300), ("idlestart", 12, 150), ("edge", 32, 600), ("hotwait", 12, 200), ("fracunits", 12, 150)],
         "monitor": ["C08"],
     },
     "C09": {
@@ -112,7 +112,7 @@ PROPS = {
     "C17": {
         "title": "Plan-following scheduling keeps every task on its planned machine",
         "lean": ["TopsimProps.C17", "TopsimProps.C17Traj"],
-        "streams": [("dynamic", 40, 600), ("chaotic-dynamic", 12, 200), ("big", 6, 80), ("dynamic-reuse", 12, 200)],
+        "streams": [("dynamic", 40, 600), ("chaotic-dynamic", 12, 200), ("big", 6, 80), ("dynamic-reuse", 12, 200), ("joinrace", 16, 200)],
         "monitor": ["C17"],
     },
     "C18": {
@@ -125,12 +125,12 @@ PROPS = {
     "C19": {
         "title": "Idle/empty/finished queries tell the truth",
         "lean": ["TopsimProps.C19", "TopsimProofs.Bridge.Queries"],
-        "streams": [("default", 24, 300), ("chaotic", 12, 200), ("clusterops", 20, 400), ("tiering", 10, 150), ("tierback", 8, 100), ("shutdown", 12, 150), ("edge", 20, 200)],
+        "streams": [("default", 24, 300), ("chaotic", 12, 200), ("clusterops", 20, 400), ("tiering", 10, 150), ("tierback", 8, 100), ("shutdown", 12, 150), ("edge", 22, 200)],
         "monitor": ["C19"],
     },
 }
 
 DIRECT_N = {  # (quick, thorough)
     "c06": (150, 3000), "c14": (60, 1500), "c15": (0, 0), "c16": (80, 2000), "c18": (80, 2000),
-    "c10": (18, 120), "c11": (6, 30),
+    "c10": (18, 120), "c11": (8, 32),
 }
